@@ -87,6 +87,8 @@ def near_tie(pts):
                     return True
         if d[2] != 0:
             D = d[1] * d[1] - 4 * d[2] * d[0]
+            if D == 0 and all(float(c).is_integer() and abs(c) < 2 ** 20 for c in coords):
+                continue        # an exact double root of small-integer data: the float discriminant is exactly 0 too, nothing to disagree about
             if abs(D) <= F(1, 10 ** 9) * (d[1] * d[1] + abs(4 * d[2] * d[0])):
                 return True
     return False
